@@ -428,6 +428,17 @@ func h2Exchange(conn net.Conn, toks []string, reqs []e2eReq) (map[uint32]*e2eRes
 		}
 		wmu.Unlock()
 		if err != nil {
+			// the server may have refused the connection (GOAWAY) and closed it while we were still writing
+			conn.SetReadDeadline(time.Now().Add(300 * time.Millisecond))
+			for {
+				f, rerr := fr.ReadFrame()
+				if rerr != nil {
+					break
+				}
+				if g, ok := f.(*http2.GoAwayFrame); ok {
+					return resps, errors.New("goaway:" + g.ErrCode.String())
+				}
+			}
 			return resps, err
 		}
 	}
